@@ -279,6 +279,33 @@ def main():
             meta.append({"prog": prog, "filter": fstr, "prior_frequencies": tag, "record": record_line(s["c"], "S%d" % i).strip(),
                          "RF_type": s["c"]["rfType"], "AF_type": s["c"]["afType"], "error": o.get("error"),
                          "chain": o.get("chain"), "line": None if crashed or ev["missing"] else recs["S%d" % i].line})
+    # ---- the real command line (fresh interpreter): exit status 0 and the same records ----
+    def data_lines(text):
+        return [l for l in text.splitlines() if l and not l.startswith("##")]
+
+    cli = []
+    for (prog, argv, chosen, fstr, tag), rr in zip(runs, res):
+        o = rr["result"]
+        c0 = states[chosen[0]]["c"]
+        flagged = "out" in o and ("\tNOA\t" in o["out"] or "\tAF0\t" in o["out"])
+        want_int = tag != "none" and c0["rfType"] == "Integer" and not any(x[4] for x in cli)
+        if (flagged and sum(1 for x in cli if not x[4]) < (3 if tier == "quick" else 9)
+                and prog not in [x[0] for x in cli if not x[4]][-1:]) or want_int:
+            cli.append((prog, argv, o, c0, want_int))
+    cres = pool.map_tasks("impl.c16", [{"op": "cli", "argv": [p_] + a} for p_, a, _, _, _ in cli], mode="jit", warm_first=False)
+    for (prog, argv, o, c0, _), rr in zip(cli, cres):
+        if not rr["ok"]:
+            ck.machinery_failure("cli worker: %s" % rr["error"])
+        r = rr["result"]
+        ck.evaluations += 1
+        tagtype = c0["rfType"] if c0["tag"] == "RF" else "-"
+        detail = {"argv": [prog] + [a for a in argv if not a.startswith("@")][-8:], "exit_status": r["rc"], "stderr_tail": r["err"][-400:]}
+        if r["rc"] != 0:
+            last = [l for l in r["err"].strip().splitlines() if l.strip()][-1:] or ["?"]
+            ck.violation("aborted", detail, key={"site": "cli:" + prog, "tag_type": tagtype, "error": last[0].split(":")[0].split(".")[-1]})
+        elif "out" in o and data_lines(r["out"]) != data_lines(o["out"]):
+            ck.violation("cli-differs", detail, key={"site": "cli:" + prog, "field": "records"})
+    ck.note("cli_runs", len(cli))
     ck.note("program_runs", len(runs))
     ck.note("program_runs_aborted", {"%s/%s" % k: v for k, v in run_aborts.items()})
     # the repo's own mock input with the options used by its tests (thousandths as the common unit)
@@ -410,11 +437,13 @@ def validate(ck, events, meta):
     ck.evaluations += len(events)
     ck.note("program_records_validated", len(events))
     ck.note("program_records_filtered_NOA_AF0", sum(1 for e in events if set(e["out"]["filters"]) & {"NOA", "AF0"}))
-    good = [e for e in events if not e["crashed"] and not e["missing"] and "PASS" in e["out"]["filters"] and len(e["out"]["kept"]) >= 2]
+    rejected = {p["reject"] - 1 for p in t.printed if "reject" in p}
+    good = [e for i, e in enumerate(events) if i not in rejected and not e["crashed"] and not e["missing"]
+            and "PASS" in e["out"]["filters"] and len(e["out"]["kept"]) >= 2]
     if not good:
-        if all(e["crashed"] for e in events):
-            ck.machinery_failure("every program run aborted")
-        good = [e for e in events if not e["crashed"] and not e["missing"]]
+        if not ck.violations:
+            ck.machinery_failure("no accepted program record to corrupt")
+        return
     ck.sample({"kind": "program-record", "event": good[0]})
     # binding demonstration: corrupted recorded outputs must be rejected by the right clause
     bads = []
